@@ -131,6 +131,14 @@ func c20Check(c c20Case, info *vlib.Info) *vlib.Failure {
 		u := units[c.Pos]
 		extra = map[string][]string{}
 		refs := referencedNames(doc)
+		// a declared tag named like the automatic tag of a path is used by the
+		// interactions on that path
+		doc.Walk(func(d, _ *vlib.Dir) {
+			if (d.Kw == "URL" || vlib.IsVerb(d.Kw)) && len(d.Params) > 0 {
+				n, _ := vlib.AutoTagOf(d.Params[0])
+				refs[n] = true
+			}
+		})
 		for _, d := range u {
 			switch d.Kw {
 			case "TYPE", "ENUM", "SERVER", "TAG", "MACRO":
